@@ -37,7 +37,7 @@ def main():
         })
     m = {
         "version": 1,
-        "setup_cmd": "cd lean && lake build YModel YProofs ydriver && cd .. && ./check --selftest",
+        "setup_cmd": "cd lean && lake build YModel YProofs " + " ".join(f"drv_{p.lower()}" for p in ALL if p in CHECKS) + " && cd .. && ./check --selftest",
         "hooks": {"guard": "YASTN_VERIF", "enable": "none needed: the harness wraps module attributes at run time (no source hooks in /repo)",
                   "baseline_off_cmd": BASE, "source_commits": [], "add_only": True},
         "engines": [{"name": "lean4-model+correspondence", "path": "lean/ harness/ gen/ check",
